@@ -346,6 +346,8 @@ def history(rng: random.Random, profile: Optional[Profile] = None, asset: str = 
                     row["cfee"] = dstr(_limit_sig(max(Q11, q11(amount / rng.choice((50, 100, 1000)))), p.max_sig_digits))
                 elif rng.random() < p.p_in_fiat_fee:
                     row["ffee"] = dstr(_limit_sig(q11(amount * spot / rng.choice((20, 100, 333))) + Decimal("0.01"), p.max_sig_digits))
+                elif p.allow_in_crypto_fee and rng.random() < 0.15:
+                    row["cfee"] = "0"  # an explicit crypto fee of zero in the cell (as in the shipped test_data4.ods): no fee, no artificial fee row
             if rng.random() < p.p_optional_fiat:
                 value = amount * spot
                 if rng.random() < p.p_inconsistent_fiat:
